@@ -477,6 +477,44 @@ func Rounding(p *load.Program, run *report.Run, pkgs []string, files map[string]
 				return true
 			}
 			d, ok := c.constInt(be.Y)
+			if !ok && be.Op == token.QUO {
+				// a count divided by a variable (a number of workers, a block size): the same discipline
+				if bt, isInt := c.pkg.TypesInfo.TypeOf(be).Underlying().(*types.Basic); !isInt || bt.Info()&types.IsInteger == 0 {
+					return true
+				}
+				x, y := c.text(be.X), c.text(be.Y)
+				key := c.name + "/" + c.text(be)
+				pos := c.p.Rel(be.Pos())
+				run.Count("division-sites", 1)
+				ceil := false
+				if par, ok := ast.Unparen(be.X).(*ast.BinaryExpr); ok && (par.Op == token.SUB || par.Op == token.ADD) {
+					// (x + y - 1) / y
+					t := c.text(par)
+					if strings.Contains(t, "+ "+y+" - 1") || strings.Contains(t, y+" - 1") && strings.Contains(t, "+") {
+						ceil = true
+					}
+				}
+				hasMod := false
+				ast.Inspect(c.fd.Body, func(m ast.Node) bool {
+					if t, ok := m.(*ast.BinaryExpr); ok && t.Op == token.REM && c.text(t.X) == x && c.text(t.Y) == y {
+						hasMod = true
+					}
+					return true
+				})
+				switch {
+				case ceil:
+					run.OK(rule, key, pos, "ceil idiom")
+				case hasMod:
+					run.OK(rule, key, pos, "quotient/remainder pair")
+				default:
+					if why, ok := frozen[key]; ok {
+						run.OK(rule, key, pos, "frozen: "+why)
+					} else {
+						run.Violate(rule, key, pos, fmt.Sprintf("floor division of %s by %s with no remainder handling: the last %s mod %s units are dropped", x, y, x, y), nil)
+					}
+				}
+				return true
+			}
 			if !ok || d <= 1 && be.Op == token.QUO {
 				return true
 			}
